@@ -414,6 +414,18 @@ def _flowspec6(tier):
         expr = '|'.join('=%d' % (i % 200) for i in range(nterms))
         yield ('flowspec6', ('extra', 'long', 'terms=%d' % nterms, 'nlri=%d octets' % (1 + 2 * nterms)), 'update',
                (_fs6_msg([{5: expr}]), True))
+    # rules whose encoding is exactly 238..242 and 254..257 octets (the 1- / 2-octet NLRI length boundary is at 240), alone and
+    # with a short rule before / behind
+    def rule_of(length):
+        rest = length - 1
+        y = 0
+        while (rest - 2 * y) % 3:
+            y += 1
+        x = (rest - 2 * y) // 3
+        return {5: '|'.join(['=%d' % (1000 + i) for i in range(x)] + ['=%d' % (10 + i) for i in range(y)])}
+    for ln in (238, 239, 240, 241, 242, 254, 255, 256, 257):
+        for pos, rules in (('alone', [rule_of(ln)]), ('first', [rule_of(ln), {3: '=6'}]), ('last', [{3: '=6'}, rule_of(ln)])):
+            yield ('flowspec6', ('extra', 'boundary', 'rule-octets=%d' % ln, 'pos=' + pos), 'update', (_fs6_msg(rules), True))
     for ln, off, why in ((129, 0, 'len=129'), (64, 65, 'offset>len'), (64, 256, 'offset=2^8'), (256, 0, 'len=2^8')):
         rule = {1: {'prefix': '2001:db8::/%d' % ln, 'offset': off}}
         yield ('flowspec6', ('extra', 'prefix', why), 'update', (_fs6_msg([rule]), True))
